@@ -331,8 +331,15 @@ def sc_shape(V, P, cfg):
         V.assume(xa <= size[a] / 2)
         x.append(xa)
     pos = np.array(x, dtype=object if V.symbolic else float)
+    n_def = len(V.c.defined) if V.symbolic else 0
     N = d.eval_shape_fun(pos)
     dN = d.eval_shape_fun_der(pos)
+    if V.symbolic:
+        # finite values on the whole closed element (faces, edges and nodes included): no divisor may vanish there
+        P.no_division_by_zero("N,dN finite on the closed element (no division by zero)", n_def, kind="finite")
+    else:
+        if not (np.all(np.isfinite(np.asarray(N, dtype=float))) and np.all(np.isfinite(np.asarray(dN, dtype=float)))):
+            K.fails["N,dN finite on the closed element (no division by zero)"] = "non-finite value: N=%r dN=%r" % (N, dN)
     K.holds("N-shape", np.shape(N) == (en,), "shape-values")
     K.holds("dN-shape", np.shape(dN) == (dim, en), "shape-derivatives")
     if np.shape(N) != (en,) or np.shape(dN) != (dim, en):
